@@ -38,6 +38,12 @@ def session_digest(case, fresh=False, data_source=None, path=None):
     if fresh:
         clear_caches()
     cfg, mk = case['cfg'], case['market']
+    for pcfg in case.get('prelude', []):
+        with market.csv_dir(mk) as p0:
+            try:
+                session.run_session(pcfg, p0, list(mk))
+            except Exception:                                     # noqa  (a prelude may be an invalid configuration)
+                pass
     if path is not None:
         r = session.run_session(cfg, path, list(mk), data_source=data_source)
     else:
@@ -98,6 +104,39 @@ def variant(cfg):
     return v
 
 
+def preludes(cfg):
+    """Sessions that differ from cfg in ONE respect each; run before the case in a worker interpreter, they must
+    not influence it (a cache or module-level table keyed too coarsely would)."""
+    out = []
+    a = json.loads(json.dumps(cfg))                   # same dates and kind, another weekday / another kind
+    if cfg['rebalance'] == 'weekly':
+        a['weekday'] = 'TUE' if cfg['weekday'].upper() != 'TUE' else 'THU'
+    else:
+        a['rebalance'], a['weekday'] = 'weekly', 'WED'
+    out.append(a)
+    b = json.loads(json.dumps(cfg))                   # same everything, other money and sizing parameters
+    b['cash'] = cfg['cash'] * 3 + 77.0
+    b['fee'] = [0.002, 0.001] if not cfg['fee'] else None
+    b['buffer'] = 0.2 if cfg['buffer'] != 0.2 else 0.1
+    b['leverage'] = cfg['leverage'] * 1.5
+    out.append(b)
+    c = json.loads(json.dumps(cfg))                   # same everything, other weights / signal parameters
+    al = c['alpha']
+    if al['kind'] == 'fixed':
+        al['weights'] = {k: (0.37 if i % 2 else 0.11) for i, k in enumerate(sorted(al['weights']))}
+    elif al['kind'] == 'single':
+        al['signal'] = al['signal'] * 0.5
+    elif al['kind'] == 'topn':
+        al['top'] = 1 if al['top'] != 1 else 2
+    elif al['kind'] == 'sma':
+        al['slow'] = al['slow'] + 1
+    else:
+        al['lookback'] = al['lookback'] + 1
+    c['burn_in'] = None
+    out.append(c)
+    return out
+
+
 def run_case(case):
     q = load()
     base = session_digest(case, fresh=True)
@@ -117,12 +156,15 @@ def run_case(case):
     if d or base['error'] != warm['error']:
         raise Violation('a data source that already served another session gives different results: %s' % (
             d or (base['error'], warm['error'])))
-    for hs in hash_seeds():
-        other_d = ask(hs, case)
+    pre = preludes(cfg)
+    for k, hs in enumerate(hash_seeds()):
+        other_d = ask(hs, dict(case, prelude=[pre[k % len(pre)]]))
         d = session.first_diff(base, other_d)
         if d or base['error'] != other_d['error']:
-            raise Violation('a fresh interpreter with PYTHONHASHSEED=%d gives different results than hash seed %s: %s' % (
-                hs, os.environ.get('PYTHONHASHSEED', '?'), d or (base['error'], other_d['error'])))
+            raise Violation('an interpreter with PYTHONHASHSEED=%d that first ran a session differing in one parameter '
+                            'group (%s) gives different results than a fresh run under hash seed %s: %s' % (
+                                hs, ['schedule', 'money/sizing', 'alpha'][k % 3], os.environ.get('PYTHONHASHSEED', '?'),
+                                d or (base['error'], other_d['error'])))
     clear_caches()
     cls = list(case.get('labels', [])) + [cfg['alpha']['kind'], cfg['universe']['kind'], cfg['rebalance']]
     nf = int(base['nfills'][0])
